@@ -108,6 +108,31 @@ def check(case, ctx):
             diff = {k: {'lark': sh(a.get(k)), 'reference': sh(b.get(k))} for k in set(a) | set(b) if a.get(k) != b.get(k)}
             kernel = ['%s: %s . %s' % (ref.R[ri][0], ' '.join(ref.R[ri][1][:dot]), ' '.join(ref.R[ri][1][dot:])) for ri, dot in sorted(c) if dot > 0 or ri < ref.nroots]
             raise Violation('LALR action table row differs from the LALR(1) automaton', grammar=gtext, state_kernel=kernel, differences=diff)
+    # ---- 2b. the same grammar with a second start symbol: one automaton for both, same conflict report and same rows
+    others = [r['name'] for r in g['rules'] if not r.get('params') and r['name'] != 'start' and not r['name'].startswith('_')]
+    if others:
+        starts = ['start', others[len(gtext) % len(others)]]
+        ref2 = reflalr.RefLALR(reflalr.from_lark(Lark(gtext, parser='earley', lexer='basic', start=starts).rules), starts)
+        err2 = None; p2 = None
+        try:
+            p2 = Lark(gtext, parser='lalr', lexer='basic', start=starts, debug=True)
+        except GrammarError as ex:
+            err2 = str(ex)
+            if 'Reduce/Reduce' not in err2:
+                raise Violation('LALR construction with two start symbols raised an unexpected GrammarError', grammar=gtext, start=starts, error=err2[:400])
+        if (err2 is not None) != bool(ref2.rr):
+            raise Violation('two start symbols: Reduce/Reduce report differs from the LALR(1) automaton: lark %s, reference finds %d conflict(s)'
+                            % ('raises' if err2 else 'builds', len(ref2.rr)), grammar=gtext, start=starts, lark_error=(err2 or '')[:600])
+        if p2 is not None:
+            lt2 = lark_table(p2, ref2)
+            if set(lt2) != set(ref2.table):
+                raise Violation('two start symbols: set of LALR states differs from the reference', grammar=gtext, start=starts, lark_states=len(lt2), ref_states=len(ref2.table))
+            for c in lt2:
+                if lt2[c] != ref2.table[c]:
+                    diff = sorted(k for k in set(lt2[c]) | set(ref2.table[c]) if lt2[c].get(k) != ref2.table[c].get(k))
+                    kernel = ['%s: %s . %s' % (ref2.R[ri][0], ' '.join(ref2.R[ri][1][:dot]), ' '.join(ref2.R[ri][1][dot:])) for ri, dot in sorted(c) if dot > 0 or ri < ref2.nroots]
+                    raise Violation('two start symbols: LALR action table row differs from the LALR(1) automaton', grammar=gtext, start=starts, state_kernel=kernel, lookaheads_that_differ=diff)
+            ctx.label('two-starts:tables-agree')
     # ---- 3. language  4. next-token sets
     for w in case['texts']:
         in_lang = gram.Ref(g, w, 'exact', concrete=conc).accepts()
